@@ -32,12 +32,22 @@ none of the earlier resolves / parses / dumps / constructions / failures.
    parses T / K change on the same object (`hdr.add_field(...)`, `add_type("unit_t", ..., replace=True)`, re-pointing a typedef'd struct
    name, a further `#define K`, endianness); parses before and after are compared with a new object that performed only the definitional
    steps, so that anything a parse folds into an expression / array type is seen.
+
+Option independence between loads (harness/v4_c14.py): one cstruct object performs 2-4 load() calls, each with a self-contained definition
+(own name prefix) and its own options - `align` and / or `compiled` flipped from one load to the next (aligned-first and unaligned-first,
+keywords given explicitly or left at their defaults, now and then a load through the legacy parser).  The definitions are padding-sensitive
+structures (small members before uint32 / uint64 / double / uint128 / pointers, arrays, nested / inline / anonymous structures and unions,
+bit-field runs, enums, typedefs, expression-sized, null-terminated and EOF arrays) and trees of the general generator.  After every load the
+new definition and every earlier one are observed (load outcome; per structure size, alignment, field offsets / bits / types recursively,
+__align__, __compiled__; len; three parses with value, stream position and dump; default construction and its dump) and compared with a new
+cstruct object of the same endianness / pointer type that performed only that one load with the same options.  Only the running number in
+the names of anonymous structures is normalised.
 """
 from __future__ import annotations
 
 import io
 
-from .. import defs, impl, s6_c14, t4_c14, u3_c14
+from .. import defs, impl, s6_c14, t4_c14, u3_c14, v4_c14
 from ..common import Case, Result, mkrng
 from ..structprops import rand_bytes
 
@@ -64,6 +74,10 @@ def run(env) -> Result:
                 "Size-change histories (u3_c14): parse-time array lengths with sizeof(T) / constants after a member operand; T grows by "
                 "add_field(), typedef'd names inside sizeof are re-pointed with replace=True, constants are re-defined, with parses before and "
                 "after, compared with a new object that performed only the definitional steps. "
+                "Option independence (v4_c14): 2-4 load() calls on one object, each with its own self-contained padding-sensitive / generated "
+                "definition and its own align / compiled options (flipped between loads, both orders, explicit or default keywords, legacy parser "
+                "in between); layout (size, alignment, field offsets, flags), len, parses (value, stream position, dump) and default construction "
+                "of the new and of every earlier definition compared with a new object that performed only that load with the same options. "
                 "distinct = (history prefix); non-trivial = history of >= 3 operations")
     dc = impl.dc()
     rnd = mkrng(env["seed"], "c14")
@@ -205,6 +219,8 @@ def run(env) -> Result:
     t4_c14.run(env, res, viol, mkrng(env["seed"], "c14:t4"), 60 if tier == "quick" else 1000, 60 if tier == "quick" else 1000)
     # types whose size / constants change between two parses (sizeof(T) and constants in parse-time array lengths)
     u3_c14.run(env, res, viol, mkrng(env["seed"], "c14:u3"), 60 if tier == "quick" else 1000)
+    # what load(D, align=a, compiled=c) creates does not depend on the options of the earlier loads of the same object
+    v4_c14.run(env, res, viol, mkrng(env["seed"], "c14:v4"), 100 if tier == "quick" else 1500)
     res.sample({"history_example": "construct@cs0, inplace-array@cs0/inst0, construct@cs0, endian@cs1, parse@cs1, ..."})
     return res
 
@@ -214,5 +230,8 @@ def replay(body) -> int:
     if str(case.get("family", "")).startswith("t4:"):
         print("replay:", body.get("what"))
         return t4_c14.replay(case)
+    if str(case.get("family", "")).startswith("v4:"):
+        print("replay:", body.get("what"))
+        return v4_c14.replay(case)
     print("replay:", body.get("what"), body.get("case"))
     return 0
